@@ -930,6 +930,78 @@ fn gen_lws(r: &mut Rng, frac: bool, maxlen: usize) -> String {
         .join(",")
 }
 
+/// Small-scope exhaustive enumeration: every string of length <= maxlen over `alphabet`,
+/// crossed with `extra` (widths / option variants); shard `shard` of `nshards`.
+fn enumerate<F: FnMut(&str, usize)>(alphabet: &[&str], maxlen: usize, nextra: usize, shard: usize, nshards: usize, mut f: F) {
+    let k = alphabet.len();
+    let mut idx = 0usize;
+    for len in 0..=maxlen {
+        let total = k.pow(len as u32);
+        for code in 0..total {
+            let mut t = String::new();
+            let mut c = code;
+            for _ in 0..len {
+                t.push_str(alphabet[c % k]);
+                c /= k;
+            }
+            for e in 0..nextra {
+                if idx % nshards == shard {
+                    f(&t, e);
+                }
+                idx += 1;
+            }
+        }
+    }
+}
+
+pub fn exhaustive<W: Write>(mode: &str, shard: usize, nshards: usize, out: &mut W) {
+    let nshards = nshards.max(1);
+    match mode {
+        "exh-dw" => enumerate(&["a", "\x1b", "[", "]", "m", "\x07", "\\", "Ｈ", "\u{301}"], 5, 1, shard, nshards, |t, _| {
+            emit(&["dw".to_string(), enc::s(t)], out)
+        }),
+        "exh-fip" => enumerate(&["a", " ", "é", "\n"], 8, 7, shard, nshards, |t, w| {
+            emit(&["fip".to_string(), enc::s(t), w.to_string()], out)
+        }),
+        "exh-dedent" => enumerate(&[" ", "\t", "\u{a0}", "a", "\n"], 7, 1, shard, nshards, |t, _| {
+            emit(&["dedent18".to_string(), enc::s(t), enc::s(" ")], out)
+        }),
+        "exh-indent" => enumerate(&[" ", "\t", "a", "\n", "\r"], 6, 3, shard, nshards, |t, e| {
+            emit(&["indent".to_string(), enc::s(t), enc::s(["", "> ", " \t"][e])], out)
+        }),
+        "exh-fwa" => enumerate(&["a", " ", "-", "é", "\x1b", "[", "m"], 7, 1, shard, nshards, |t, _| {
+            emit(&["fwa".to_string(), enc::s(t)], out)
+        }),
+        "exh-fwu" => enumerate(&["a", " ", "-", "é", "\x1b", "[", "m"], 6, 1, shard, nshards, |t, _| {
+            emit(&["fwu".to_string(), enc::s(t)], out)
+        }),
+        "exh-ba" => enumerate(&["a", "-", "é", "Ｈ", "\u{301}", "\x1b[31m"], 6, 6, shard, nshards, |t, lim| {
+            let w = textwrap::core::display_width(t);
+            emit(&["ba".to_string(), format!("{}/_/_/{}", enc::s(t), w), lim.to_string()], out)
+        }),
+        "exh-wrap" => enumerate(&["a", " ", "-", "é", "Ｈ", "\n"], 5, 64, shard, nshards, |t, e| {
+            let w = e % 8;
+            let v = e / 8;
+            let full = cfg!(feature = "full");
+            let o = OptSpec {
+                w,
+                crlf: false,
+                ii: if v & 1 == 1 { "> ".to_string() } else { String::new() },
+                si: if v & 1 == 1 { "  ".to_string() } else { String::new() },
+                bw: v & 2 == 2,
+                alg: if full && v & 4 == 4 { Some([1000, 2500, 4, 25, 25]) } else { None },
+                unicode: false,
+                spl: 1,
+            };
+            emit(&["wrap".to_string(), o.enc(), enc::s(t)], out)
+        }),
+        other => {
+            eprintln!("unknown exhaustive mode {}", other);
+            std::process::exit(2);
+        }
+    }
+}
+
 pub fn generate<W: Write>(mode: &str, r: &mut Rng, out: &mut W) {
     let f: Vec<String> = match mode {
         "dw" => {
